@@ -48,50 +48,50 @@ def dpkg_cmp(a, b):
             wa = weight(a[i]) if i < la else BitVecVal(0, 16)
             wb = weight(b[j]) if j < lb else BitVecVal(0, 16)
             nd = If(wa < wb, M1, If(wa > wb, P1, cmp_(i + 1, j + 1)))
-            r = If(Or(nda, ndb), nd, skipa(i, j, i, j))
+            r = If(Or(nda, ndb), nd, skipa(i, j, False))
         memo[k] = r
         return r
 
-    def skipa(i, j, i0, j0):
-        k = ('a', i, j, i0, j0)
+    def skipa(i, j, moved):
+        k = ('a', i, j, moved)
         if k in memo:
             return memo[k]
         if i < la:
-            r = If(a[i] == BitVecVal(48, 8), skipa(i + 1, j, i0, j0), skipb(i, j, i0, j0))
+            r = If(a[i] == BitVecVal(48, 8), skipa(i + 1, j, True), skipb(i, j, moved))
         else:
-            r = skipb(i, j, i0, j0)
+            r = skipb(i, j, moved)
         memo[k] = r
         return r
 
-    def skipb(i, j, i0, j0):
-        k = ('b', i, j, i0, j0)
+    def skipb(i, j, moved):
+        k = ('b', i, j, moved)
         if k in memo:
             return memo[k]
         if j < lb:
-            r = If(b[j] == BitVecVal(48, 8), skipb(i, j + 1, i0, j0), run(i, j, 0, i0, j0))
+            r = If(b[j] == BitVecVal(48, 8), skipb(i, j + 1, True), run(i, j, 0, moved))
         else:
-            r = run(i, j, 0, i0, j0)
+            r = run(i, j, 0, moved)
         memo[k] = r
         return r
 
-    def run(i, j, fd, i0, j0):
-        k = ('r', i, j, fd, (i, j) == (i0, j0))
+    def run(i, j, fd, moved):
+        k = ('r', i, j, fd, moved)
         if k in memo:
             return memo[k]
         da = is_digit(a[i]) if i < la else False
         db = is_digit(b[j]) if j < lb else False
         if fd != 0:
             rest = BitVecVal(fd, 8)
-        elif (i, j) == (i0, j0):
+        elif not moved:
             rest = Z0        # not reachable: the digit phase is only entered when a digit is present
         else:
             rest = cmp_(i, j)
         tail = If(da, P1, If(db, M1, rest)) if (da is not False or db is not False) else rest
         if da is not False and db is not False:
             if fd != 0:
-                both = run(i + 1, j + 1, fd, i0, j0)
+                both = run(i + 1, j + 1, fd, True)
             else:
-                both = If(ULT(a[i], b[j]), run(i + 1, j + 1, -1, i0, j0), If(UGT(a[i], b[j]), run(i + 1, j + 1, 1, i0, j0), run(i + 1, j + 1, 0, i0, j0)))
+                both = If(ULT(a[i], b[j]), run(i + 1, j + 1, -1, True), If(UGT(a[i], b[j]), run(i + 1, j + 1, 1, True), run(i + 1, j + 1, 0, True)))
             r = If(And(da, db), both, tail)
         else:
             r = tail
